@@ -5,7 +5,9 @@ lean/Mpir/Model/AllocSafeMpf7.lean has index-checked mirrors (every load and sto
 of mpf/set.c, set_ui.c, set_si.c, set_z.c, mul_ui.c (the carry-in scan over the dropped limbs, the unconditional store `rp[size] = cy_limb`)
 mul_2exp.c / div_2exp.c (whole-limb copy arm with `prec++`, the mpn_rshift path `rp + 1` / `rp[0] = cy_limb` / read-back of rp[abs_usize], the mpn_lshift path)
 and add.c for operands of equal sign (exponent swap, the two cuts to `prec` limbs, `ediff >= prec` early copy with its `rp != up` test, the three
-alignments into the TMP area of `prec` limbs, `rp[rsize] = cy`; different signs go to mpf_sub and are refused by the ops).  Theorems
+alignments into the TMP area of `prec` limbs, `rp[rsize] = cy`), and of mpf/neg.c and mpf/sub.c: zero operands and operands of different sign index-checked (mpf_neg, mpf_set, the equal-sign path of add.c), the
+equal-sign path of sub.c (also reached from mpf_add with different signs) at STORE level — exactly the |SIZ| result limbs of C13's Mpf.subMag at rp[0, |SIZ|), operand loads
+inside their |SIZ| limbs; its TMP traffic is not index-checked (theorem `mpf_sub_dest_safe_partial` says so).  Theorems
 `<fn>_dest_safe` (lean/MpirProofs/Props/C04_allocsafe7.lean).  Ops `as7_*` (harness/ops_allocsafe7.c) build every object by hand: destination
 block of EXACTLY PREC + 1 limbs between guard limbs, operands in blocks of exactly their length, all alias modes; SIZ, EXP and the WHOLE
 destination block are compared with the model's."""
@@ -13,20 +15,21 @@ from genlib import *
 
 LEAN_MODULES = ["MpirProofs.Props.C04_allocsafe7"]
 THEOREMS = ["Mpir.AllocSafe7." + t for t in (
-    "mpf_set_dest_safe", "mpf_set_ui_dest_safe", "mpf_set_si_dest_safe", "mpf_set_z_dest_safe", "mpf_mul_ui_dest_safe", "mpf_add_dest_safe", "mpf_add_dest_wf", "mpf_mul_2exp_dest_safe", "mpf_div_2exp_dest_safe")]
+    "mpf_set_dest_safe", "mpf_set_ui_dest_safe", "mpf_set_si_dest_safe", "mpf_set_z_dest_safe", "mpf_mul_ui_dest_safe", "mpf_add_dest_safe", "mpf_add_dest_wf", "mpf_mul_2exp_dest_safe", "mpf_div_2exp_dest_safe", "mpf_sub_dest_safe_partial")]
 TRUSTED = ["hand-written index-checked models lean/Mpir/Model/AllocSafeMpf7.lean (mpf/set.c, set_ui.c, set_si.c, set_z.c, mul_ui.c, add.c, mul_2exp.c, div_2exp.c; "
            "mpn_lshift / mpn_rshift at value level: the n + 1 limbs of up * 2^k as in Mpf.shiftUp; "
            "mpn_add / mpn_mul_1 + carry-in at value level as in the C13 model Mpir/Model/Mpf.lean; MPN_COPY_INCR with rp <= up = all loads, then all stores), "
            "tied by exact comparison of SIZ, EXP and the whole destination block (guard limbs around it) in every alias mode, and by source pins"]
-ASSUMPTIONS = ["mpn_rshift (rp + 1, up, n, c) stores exactly rp[1, n] and mpn_lshift (rp, up, n, c) exactly rp[0, n) (C03 kernels); with rp <= up the incrementing mpn_rshift and, in place, the decrementing mpn_lshift read every limb before overwriting it",
+ASSUMPTIONS = ["mpf/sub.c:65-410 stores through rp only by the MPN_COPYs of :122, :286, :297, :309, :402 (exactly the result limbs at rp[0, rsize)); its TMP area of PREC + 1 limbs is not index-checked",
+               "mpn_rshift (rp + 1, up, n, c) stores exactly rp[1, n] and mpn_lshift (rp, up, n, c) exactly rp[0, n) (C03 kernels); with rp <= up the incrementing mpn_rshift and, in place, the decrementing mpn_lshift read every limb before overwriting it",
                "mpn_add (rp, xp, xn, yp, yn) stores exactly xn limbs, mpn_mul_1 / mpn_add_1 exactly n limbs (C01/C03 kernels)",
                "the carry-in scan of mpf/mul_ui.c:132-154 is checked as a load of up[0, excess) (it loads a suffix of that range)"]
 RULE = ("allocsafe7: destination precision 1..6 limbs, operand lengths 0, 1, prec-1, prec, prec+1, prec+2, prec+5 (longer than the destination, and in "
         "the aliased calls longer than the object's own PREC + 1), all-ones operands (carry limb stored at rp[size] / rp[rsize]), low zero limbs, "
         "mpf_add: exponent difference 0, 1, usize-1, usize, usize+1, prec-1, prec, prec+1, large, either operand the larger exponent, a zero operand, "
-        "alias modes r==u, r==v, u==v, r==u==v; mul_2exp/div_2exp: counts 0, 1, 63, 64, 65, multiples of 64, operand longer than prec (rshift path) or not (lshift path, carry limb zero / non-zero), r==u; mul_ui: v = 0, 1, 2^64-1, 2^63, carries propagating out of the dropped limbs")
+        "alias modes r==u, r==v, u==v, r==u==v; mpf_sub / mpf_add with every sign combination: k equal high limbs then a differing one, one operand a prefix of the other, x+1 000.. / x fff.. and 1 000.. / 0 fff.. neighbours, one-ulp neighbours, u == v, low zero limbs, exponent differences around PREC + 1; mul_2exp/div_2exp: counts 0, 1, 63, 64, 65, multiples of 64, operand longer than prec (rshift path) or not (lshift path, carry limb zero / non-zero), r==u; mul_ui: v = 0, 1, 2^64-1, 2^63, carries propagating out of the dropped limbs")
 
-PINS = [("mpf/mul_2exp.c", None), ("mpf/div_2exp.c", None), ("mpf/set.c", None), ("mpf/set_ui.c", None), ("mpf/set_si.c", None), ("mpf/set_z.c", None), ("mpf/mul_ui.c", None), ("mpf/add.c", None)]
+PINS = [("mpf/sub.c", None), ("mpf/neg.c", None), ("mpf/mul_2exp.c", None), ("mpf/div_2exp.c", None), ("mpf/set.c", None), ("mpf/set_ui.c", None), ("mpf/set_si.c", None), ("mpf/set_z.c", None), ("mpf/mul_ui.c", None), ("mpf/add.c", None)]
 
 def limbs(rng, n):
     """n limbs, top non-zero, special shapes on purpose"""
@@ -102,6 +105,56 @@ def gen_add(rng):
     s_v = s if nv else 0
     return "as7_add %x %x %x %s %s %x %s %s" % (m, p, s_u, hx(eu), vec(du), s_v, hx(ev), vec(dv))
 
+def gen_sub(rng):
+    """mpf_sub / mpf_add with every sign combination, directed at the cancellation paths of mpf/sub.c: equal exponents and k equal high limbs
+    (the scan), then a differing limb (either operand larger), one operand a prefix of the other (`usize == 0` / `vsize == 0` -> cancellation:),
+    x+1 000... / x fff... neighbours and exponent difference 1 with 1 000... / 0 fff... (the close path, TMP extent usize + 1), v a one-ulp
+    neighbour of u, complete cancellation (u == v), operands longer than the precision, low zero limbs (the strip loops), exponent
+    differences around prec = PREC + 1"""
+    p = prec_(rng)
+    op = rng.choice(["as7_sub", "as7_sub", "as7_add"])
+    m = rng.choice([0, 0, 0, 1, 1, 2, 2, 3, 4])
+    c = rng.randrange(10)
+    nu = max(1, length(rng, p)); nv = max(1, length(rng, p))
+    du = limbs(rng, nu); dv = limbs(rng, nv)
+    eu = expo(rng); ed = 0
+    if c == 0:      # k equal high limbs then a differing one
+        k = rng.randrange(1, min(nu, nv) + 1)
+        dv[nv - k:] = du[nu - k:]
+        if k < min(nu, nv): dv[nv - k - 1] = (du[nu - k - 1] + rng.choice([1, -1, 2, 1 << 63])) % B
+    elif c == 1:    # one operand is the top part of the other
+        k = min(nu, nv); dv[nv - k:] = du[nu - k:]
+        if rng.random() < 0.5 and nv > k: dv[: nv - k] = [0] * (nv - k - 1) + [rng.choice([0, 1])]
+    elif c == 2:    # x+1 000... / x fff...
+        x = rng.getrandbits(63) + 1
+        z = rng.randrange(0, nu); f = rng.randrange(0, nv)
+        du = limbs(rng, nu - 1 - z) + [0] * z + [x + 1] if nu - 1 - z > 0 else [0] * (nu - 1) + [x + 1]
+        dv = limbs(rng, nv - 1 - f) + [M] * f + [x] if nv - 1 - f > 0 else [M] * (nv - 1) + [x]
+        nu = len(du); nv = len(dv)
+    elif c == 3:    # ediff 1: 1 000... / 0 fff...
+        z = rng.randrange(0, nu)
+        du = (limbs(rng, nu - 1 - z) if nu - 1 - z > 0 else []) + [0] * min(z, nu - 1) + [1]
+        dv = (limbs(rng, nv - 1 - min(z, nv - 1)) if nv - 1 - min(z, nv - 1) > 0 else []) + [M] * min(z + 1, nv)
+        du = du[-nu:]; dv = dv[-nv:] if dv[-1] else [M]
+        nu = len(du); nv = len(dv); ed = 1
+    elif c == 4:    # one-ulp neighbour
+        dv = list(du); nv = nu
+        i = 0
+        dv[0] = (dv[0] + rng.choice([1, -1])) % B
+        if dv[-1] == 0: dv[-1] = 1
+    elif c == 5:    # identical
+        dv = list(du); nv = nu
+    else:
+        ed = rng.choice([0, 1, 1, 2, nu - 1, nu, nu + 1, p - 1, p, p + 1, p + 2, p + 1 - nv, p + 2 - nv, nu - nv, 1 << 33, rng.randrange(0, p + 4)])
+        ed = max(ed, 0)
+    if rng.random() < 0.5: ed = -ed
+    su = rng.randrange(2); sv = rng.randrange(2) if c >= 6 and rng.random() < 0.4 else (su if op == "as7_sub" else 1 - su)
+    if rng.random() < 0.05: du = []; su = 0; eu = 0
+    if rng.random() < 0.05: dv = []; sv = 0
+    ev = (eu - ed) if dv else 0
+    if not du: eu = 0
+    return "%s %x %x %x %s %s %x %s %s" % (op, m, p, su, hx(eu), vec(du), sv, hx(ev), vec(dv))
+
 def gen_ops(rng, tier, ctx=None):
     n = 700 if tier == "quick" else 20000
     for _ in range(n):
@@ -110,6 +163,8 @@ def gen_ops(rng, tier, ctx=None):
         yield gen_add(rng)
         yield gen_add(rng)
         yield gen_2exp(rng)
+        yield gen_sub(rng)
+        yield gen_sub(rng)
         if _ % 2 == 0: yield gen_set_z(rng)
         if _ % 4 == 1: yield gen_set_ui(rng)
         if _ % 4 == 3: yield gen_set_si(rng)
